@@ -12,7 +12,7 @@
 (*   log ("a")  <<<<t, r, v>>, ...>> register writes (r < 16), beeper flips  *)
 (*         (r = 255), last entry = end marker                                *)
 (*   wav   what the harness' RIFF reader found (see Audio!WavClause)         *)
-(* Verdict = <<clause, drift>>: clause "ok" or the first failing statement   *)
+(* Verdict = <<clause, drift, tag>>: clause "ok" or the first failing statement   *)
 (* of the format definition / documentation / data sheet; drift "" or the    *)
 (* first difference from the [impl] operators (counted, never a violation).  *)
 (***************************************************************************)
@@ -86,11 +86,14 @@ JudgeB(c) ==
       D == Adjust(c.cfg, c.opt, DocVariant, c.delays)
       v0 == BeeperVerdict(c, D, obs)
       \* is a failure explained by one of the named deviations (only tried where the deviation can matter)?
+      AS == Adjust(c.cfg, c.opt, [span |-> TRUE, first |-> FALSE], c.delays)
+      AF == Adjust(c.cfg, c.opt, [span |-> FALSE, first |-> TRUE], c.delays)
       tryS == D.span
       tryF == D.fcross
-      vS == IF tryS THEN BeeperVerdict(c, Adjust(c.cfg, c.opt, [span |-> TRUE, first |-> FALSE], c.delays), obs) ELSE "n/a"
-      vF == IF tryF THEN BeeperVerdict(c, Adjust(c.cfg, c.opt, [span |-> FALSE, first |-> TRUE], c.delays), obs) ELSE "n/a"
-      vSF == IF tryS /\ tryF THEN BeeperVerdict(c, Adjust(c.cfg, c.opt, ImplVariant, c.delays), obs) ELSE "n/a"
+      vS == IF tryS THEN BeeperVerdict(c, AS, obs) ELSE "n/a"
+      vF == IF tryF THEN BeeperVerdict(c, AF, obs) ELSE "n/a"
+      \* one deviation may bring the other into play (a delay that is too long crosses a frame boundary it should not reach)
+      vSF == IF (tryS /\ (tryF \/ AS.fcross)) \/ (tryF /\ AF.span) THEN BeeperVerdict(c, Adjust(c.cfg, c.opt, ImplVariant, c.delays), obs) ELSE "n/a"
       clause == IF v0 = "ok" THEN "ok"
                 ELSE IF vS = "ok" THEN "adjust:ImplSpanBook"
                 ELSE IF vF = "ok" THEN "adjust:ImplFirstDelayExempt"
@@ -101,11 +104,19 @@ JudgeB(c) ==
       drift == IF c.hasadj = 1 /\ (Len(c.adj) # Len(I.adj) \/ badadj # 0)
                THEN (IF I.tie THEN "adjust-float-tie" ELSE "adjust:i" \o Str(badadj))
                ELSE BeeperExact(PQ, vol, IF c.hasadj = 1 THEN c.adj ELSE I.adj, obs)
-  IN IF ct # "ok" THEN <<ct, "">>
-     ELSE IF w.fmt[6] # 16 THEN <<"ok", "bits">>
-     ELSE IF Len(obs) # WavFrames(w) THEN <<"machinery:reader", "">>
-     ELSE IF clause # "ok" /\ clause = v0 THEN <<clause, "">>
-     ELSE <<clause, drift>>
+      \* which statements had something to say about this case (for the vacuity guard of the harness)
+      tag == LET F == FlipTimes(D.adj)
+                 m == Min(Len(obs), NumSamples(PQ, IF F = <<>> THEN 0 ELSE F[Len(F)]))
+                 cls == SteadyClass(PQ, F, m, D.segs + 2)
+             IN "b" \o (IF \E i \in 1..m : cls[i] = 1 THEN ":first" ELSE "") \o (IF \E i \in 1..m : cls[i] = 2 THEN ":second" ELSE "")
+                    \o (IF \E i \in 1..m : cls[i] = 0 THEN ":mixed" ELSE "") \o (IF D.segs > 0 THEN ":contended" ELSE "")
+                    \o (IF D.span THEN ":span" ELSE "") \o (IF D.fcross THEN ":fcross" ELSE "") \o (IF D.tie THEN ":tie" ELSE "")
+                    \o (IF Sum(D.adj) > Sum(c.delays) THEN ":longer" ELSE "")
+  IN IF ct # "ok" THEN <<ct, "", "b">>
+     ELSE IF w.fmt[6] # 16 THEN <<"ok", "bits", "b">>
+     ELSE IF Len(obs) # WavFrames(w) THEN <<"machinery:reader", "", "b">>
+     ELSE IF clause # "ok" /\ clause = v0 THEN <<clause, "", tag>>
+     ELSE <<clause, drift, tag>>
 
 -----------------------------------------------------------------------------
 (* AY *)
@@ -232,12 +243,17 @@ JudgeA(c) ==
                ELSE IF bad # 0 THEN (IF TS[1] >= TS[2] THEN "ay-sample-slow-clock" ELSE "ay-sample:k" \o Str(bad))
                ELSE ""
       lowrate == TS[1] >= TS[2]
-  IN IF ct # "ok" THEN <<ct, "">>
-     ELSE IF w.fmt[6] # 16 THEN <<"ok", "bits">>
-     ELSE IF Len(w.samples) # n * nch THEN <<"machinery:reader", "">>
-     ELSE IF clause # "ok" THEN <<(IF lowrate /\ clause \in {"tone-period", "tone-period-long", "noise-period", "envelope-level-value"}
-                                   THEN "clock:ImplTickPerEighthSample:" ELSE "") \o clause, "">>
-     ELSE <<"ok", drift>>
+      tag == "a" \o (IF vol = 0 THEN ":vol0" ELSE IF usebpr THEN ":bpr"
+                      ELSE IF static THEN ":static:" \o (IF Cardinality(act) = 0 THEN "silent" ELSE IF Cardinality(act) > 1 THEN "several"
+                                                        ELSE (IF EnvMode(R, one) = 1 THEN "env" ELSE "fixed") \o ToString(gate[1]) \o ToString(gate[2]))
+                      ELSE IF speech /\ Cardinality(used) = 1 THEN ":speech" ELSE ":dynamic")
+                 \o (IF lowrate THEN ":lowrate" ELSE "")
+  IN IF ct # "ok" THEN <<ct, "", "a">>
+     ELSE IF w.fmt[6] # 16 THEN <<"ok", "bits", "a">>
+     ELSE IF Len(w.samples) # n * nch THEN <<"machinery:reader", "", "a">>
+     ELSE IF clause # "ok" THEN <<(IF lowrate /\ clause \in {"tone-period", "tone-period-long", "noise-period", "envelope-level-value", "envelope-level-order"}
+                                   THEN "clock:ImplTickPerEighthSample:" ELSE "") \o clause, "", tag>>
+     ELSE <<"ok", drift, tag>>
 
 Judge(c) == IF c.k = "b" THEN JudgeB(c) ELSE JudgeA(c)
 
@@ -247,5 +263,6 @@ Next == /\ verdict = "pending"
              /\ verdict' = r[1]
              /\ (IF r[1] = "ok" THEN TRUE ELSE PrintT(<<"FAIL", tid, r[1]>>))
              /\ (IF r[2] = "" THEN TRUE ELSE PrintT(<<"DRIFT", tid, r[2]>>))
+             /\ PrintT(<<"TAG", tid, r[3]>>)
         /\ UNCHANGED tid
 =============================================================================
